@@ -48,7 +48,12 @@ func (c RawConfiguration) QuorumCall(ctx context.Context, d QuorumCallData) (res
 	for {
 		// check before waiting: there may be no node to wait for at all
 		if len(errs)+len(replies) == expectedReplies {
-			return resp, QuorumCallError{cause: Incomplete, errors: errs, replies: len(replies)}
+			cause := Incomplete
+			if ctx.Err() != nil {
+				// the context ended first; node errors caused by that are not answers
+				cause = ctx.Err()
+			}
+			return resp, QuorumCallError{cause: cause, errors: errs, replies: len(replies)}
 		}
 		select {
 		case r := <-replyChan:
